@@ -29,8 +29,9 @@ ASSUMPTIONS = [
 
 
 def setup():
-  from ml_metrics._src.chainables import courier_server  # pylint: disable=g-import-not-at-top
+  from ml_metrics._src.chainables import courier_server, courier_worker  # pylint: disable=g-import-not-at-top
   courier_server.CourierServer.__del__ = lambda self: None
+  dist.perturb_polling(courier_worker)
 
 
 def run_sharded(case):
@@ -38,6 +39,7 @@ def run_sharded(case):
   from ml_metrics._src.chainables import orchestrate, transform  # pylint: disable=g-import-not-at-top
   courier.reset()
   dist.seed_random(case.get('rseed', 0))
+  dist.PERTURB['empty_delay'] = case.get('poll_delay', 0.0)
   data, shape = case['data'], case['shape']
   what = f'{ {k: v for k, v in case.items() if k != "data"} } data={data}'
   want_out, want_agg = dist.in_process(data, shape)
@@ -85,7 +87,9 @@ def strat_sharded(tier):
                                                'chain2': draw(st.sampled_from([False, False, True]))},
             'workers': draw(st.sampled_from([1, 2, 2, 3])), 'shards': draw(st.sampled_from([1, 2, 2, 3, 3, 4, 6])),
             'iterate_batch_size': draw(st.sampled_from([1, 1, 2, 3])), 'prefetch_size': draw(st.integers(1, 3)),
-            'with_batch_output': draw(st.sampled_from([True, True, False])), 'rseed': draw(st.integers(0, 10**6))}
+            'with_batch_output': draw(st.sampled_from([True, True, False])), 'rseed': draw(st.integers(0, 10**6)),
+            # schedule perturbation: how long the pool's polling loop lingers after finding its output queue empty
+            'poll_delay': draw(st.sampled_from([0.0, 0.0, 0.002, 0.01]))}
   return s()
 
 
